@@ -10,12 +10,13 @@
     [x: y].  Sets of goals are compared with [seteq] (mutual inclusion).
 
     PROVED: [relate_cov_shape], [relate_cov_constraints] (variable-free types, syntactic set
-    equality); [relate_cov_shape_unknowns], [relate_cov_constraints_unknowns] (types whose
-    lifetimes may be UNKNOWNS, fragment [ufrag]: as [cfrag] without fn pointers; semantic
+    equality); [relate_cov_shape_unknowns], [relate_cov_constraints_unknowns] and, for every variance
+    of the call, [relate_constraints_unknowns_any_variance] (types whose
+    lifetimes may be UNKNOWNS, fragment [ufrag]: as [cfrag]; semantic
     equivalence in every preorder model of the lifetimes, because at invariant positions chalk
     binds / unions the unknowns instead of returning goals); [xform_assoc], [invert_involutive].
     NOT PROVED: types with TYPE unknowns (generalisation introduces fresh lifetime unknowns
-    that would have to be eliminated); fn pointers together with lifetime unknowns. *)
+    that would have to be eliminated); fn pointers WITH binders (fresh existential lifetimes). *)
 From Chalk Require Import Ir.Syntax Infer.Table Infer.Unify Infer.Variance Infer.Closed Infer.ClosedU.
 
 (** Covariant relate of closed types succeeds iff the lifetime-erased structures agree. *)
@@ -74,6 +75,27 @@ Check relate_cov_constraints_unknowns : forall adt_var fn_var arity fuel a b t g
     (respects D le ρ t' -> respects D le ρ t)
     /\ (respects D le ρ t ->
          ((respects D le ρ t' /\ sat_goals D le ρ gs) <-> sat D le ρ (variance_constraints adt_var fn_var Covariant a b))).
+
+(** Both statements for EVERY variance [v] of the call (and: a failing call leaves the table alone). *)
+Theorem relate_constraints_unknowns_any_variance : forall adt_var fn_var arity fuel v a b t,
+  ufrag arity a = true -> ufrag arity b = true -> (depth a <= fuel)%nat -> ltinv t -> ucells t a -> ucells t b ->
+  (erase a = erase b /\ exists gs t', relate adt_var fn_var fuel v a b t = (Done gs, t') /\ ltinv t' /\
+     forall (D : Type) (le : D -> D -> Prop), (forall x, le x x) -> (forall x y z, le x y -> le y z -> le x z) ->
+     forall ρ : tm -> D,
+       (respects D le ρ t' -> respects D le ρ t)
+       /\ (respects D le ρ t ->
+            ((respects D le ρ t' /\ sat_goals D le ρ gs) <-> sat D le ρ (variance_constraints adt_var fn_var v a b))))
+  \/ (erase a <> erase b /\ relate adt_var fn_var fuel v a b t = (NoSol, t)).
+Proof. exact relate_constraints_unknowns_any_variance_lemma. Qed.
+Check relate_constraints_unknowns_any_variance : forall adt_var fn_var arity fuel v a b t,
+  ufrag arity a = true -> ufrag arity b = true -> (depth a <= fuel)%nat -> ltinv t -> ucells t a -> ucells t b ->
+  (erase a = erase b /\ exists gs t', relate adt_var fn_var fuel v a b t = (Done gs, t') /\ ltinv t' /\
+     forall (D : Type) (le : D -> D -> Prop), (forall x, le x x) -> (forall x y z, le x y -> le y z -> le x z) ->
+     forall ρ : tm -> D,
+       (respects D le ρ t' -> respects D le ρ t)
+       /\ (respects D le ρ t ->
+            ((respects D le ρ t' /\ sat_goals D le ρ gs) <-> sat D le ρ (variance_constraints adt_var fn_var v a b))))
+  \/ (erase a <> erase b /\ relate adt_var fn_var fuel v a b t = (NoSol, t)).
 
 (** Composition of variances is associative. *)
 Theorem xform_assoc : forall a b c, xform (xform a b) c = xform a (xform b c).
